@@ -94,9 +94,6 @@ Section Shift.
     Lemma off_noview : forall st, Good (s_env st) -> eval_view st (shift_off i lo nlo) = Err TypeErr.
     Proof. reflexivity. Qed.
 
-    Lemma T_x : forall e, match lookup i (T e) with Some (BView _) => False | _ => True end.
-    Proof. intro e. subst T. rewrite retarget_self. destruct (lookup i e); exact I. Qed.
-
     Lemma T_cons : forall y b e, okb y = true -> T ((y, b) :: e) = (y, b) :: T e.
     Proof.
       intros y b e H. subst T. cbn [retarget]. unfold okb in H. apply andb_true_iff in H as [H _].
@@ -114,14 +111,14 @@ Section Shift.
 
     (** one iteration of the original loop is one iteration of the shifted loop *)
     Lemma shift_iteration : forall body st0 s,
-      forallb (okbind okb) body = true -> same_env st0 ->
+      forallb (okbind okb) body = true -> forallb (nm_s i (fun _ => false)) body = true -> same_env st0 ->
       loop_body i body k st0 = Ok s ->
       loop_body i (pe_ss i (shift_off i lo nlo) body) k' st0 = Ok s.
     Proof.
-      intros body st0 s Hok Henv Hrun. unfold loop_body in *.
-      pose proof (body_sub i (shift_off i lo nlo) (VInt k) okb T Good okb_i off_eval off_noview
-                    (fun e y Hy => retarget_lookup i (BVal (VInt k')) e y Hy) T_x T_cons Good_cons
-                    body (bind_var i (BVal (VInt k)) st0) Hok) as Hsim.
+      intros body st0 s Hok Hnm Henv Hrun. unfold loop_body in *.
+      pose proof (body_sub i (shift_off i lo nlo) (VInt k) okb T Good (fun _ => false) okb_i off_eval off_noview
+                    (fun e y Hy _ => retarget_lookup i (BVal (VInt k')) e y Hy) T_cons Good_cons
+                    body (bind_var i (BVal (VInt k)) st0) Hok Hnm) as Hsim.
       assert (Hinv : inv i (VInt k) T Good (bind_var i (BVal (VInt k)) st0)).
       { split.
         - cbn [bind_var s_env lookup]. rewrite Pos.eqb_refl. reflexivity.
@@ -149,13 +146,14 @@ Section Shift.
   Qed.
 
   Lemma shift_iterations : forall body, forallb (okbind okb) body = true ->
+    forallb (nm_s i (fun _ => false)) body = true ->
     forall n k st0 s, same_env st0 ->
     iter_loop n k (loop_body i body) st0 = Ok s ->
     iter_loop n (k - l + nl) (loop_body i (pe_ss i (shift_off i lo nlo) body)) st0 = Ok s.
   Proof.
-    intros body Hok. induction n as [|n IH]; intros k st0 s Henv H; cbn [iter_loop] in *; [exact H|].
+    intros body Hok Hnm. induction n as [|n IH]; intros k st0 s Henv H; cbn [iter_loop] in *; [exact H|].
     destruct (loop_body i body k st0) as [s1|] eqn:E1; cbn [bind] in H; [|discriminate H].
-    rewrite (shift_iteration k body st0 s1 Hok Henv E1). cbn [bind].
+    rewrite (shift_iteration k body st0 s1 Hok Hnm Henv E1). cbn [bind].
     replace (k - l + nl + 1) with (k + 1 - l + nl) by lia.
     apply IH; [|exact H]. unfold same_env in *. rewrite (loop_body_env _ _ _ _ _ E1). exact Henv.
   Qed.
@@ -164,12 +162,12 @@ End Shift.
 (** the rule, for one execution *)
 Theorem shift_loop_run : forall i lo hi nlo V body par st st' nl,
   ~ In i V -> depends_on V lo -> depends_on V nlo ->
-  forallb (okbind (okb i V)) body = true ->
+  forallb (okbind (okb i V)) body = true -> forallb (nm_s i (fun _ => false)) body = true ->
   eval st nlo = Ok (VInt nl) ->
   exec (For i lo hi body par) st = Ok st' ->
   exec (shift_loop_rw i lo hi nlo body par) st = Ok st'.
 Proof.
-  intros i lo hi nlo V body par st st' nl Hi Dlo Dnlo Hok Hnl Hrun.
+  intros i lo hi nlo V body par st st' nl Hi Dlo Dnlo Hok Hnm Hnl Hrun.
   unfold shift_loop_rw. rewrite exec_For in *.
   destruct (eval st lo) as [vl|] eqn:El; cbn [bind] in Hrun; [|discriminate Hrun].
   destruct (as_int vl) as [l|] eqn:Eil; cbn [bind] in Hrun; [|discriminate Hrun].
@@ -189,11 +187,11 @@ Qed.
 (** as a refinement of statement lists, usable under [refines_plug] *)
 Theorem rule_shift_loop : forall i lo hi nlo V body par,
   ~ In i V -> depends_on V lo -> depends_on V nlo ->
-  forallb (okbind (okb i V)) body = true ->
+  forallb (okbind (okb i V)) body = true -> forallb (nm_s i (fun _ => false)) body = true ->
   (forall st l, eval st lo = Ok (VInt l) -> exists nl, eval st nlo = Ok (VInt nl)) ->
   refines [For i lo hi body par] [shift_loop_rw i lo hi nlo body par].
 Proof.
-  intros i lo hi nlo V body par Hi Dlo Dnlo Hok Hev st st' H. rewrite single in *.
+  intros i lo hi nlo V body par Hi Dlo Dnlo Hok Hnm Hev st st' H. rewrite single in *.
   assert (exists l, eval st lo = Ok (VInt l)) as [l Hl].
   { rewrite exec_For in H. destruct (eval st lo) as [vl|]; cbn [bind] in H; [|discriminate H].
     destruct vl; cbn in H; try discriminate H. eexists; reflexivity. }
@@ -231,7 +229,7 @@ Example shift_example :
   let i := 1%positive in let n := 2%positive in
   let body := [Assign 3%positive [Var i] (Real (Qcanon.Q2Qc (QArith_base.Qmake 1 1)))] in
   ~ In i [n] /\ index_over [n] (Var n) = true /\ index_over [n] (Int 0) = true /\
-  forallb (okbind (okb i [n])) body = true.
+  forallb (okbind (okb i [n])) body = true /\ forallb (nm_s i (fun _ => false)) body = true.
 Proof. cbn. repeat split; try reflexivity. intros [H|[]]; discriminate H. Qed.
 
 (** ** the whole-procedure rewrite, as the implementation performs it (the loop is found by its Sym) *)
@@ -257,6 +255,7 @@ Definition shift_ok (i : sym) (nlo : expr) (s : stmt) : bool :=
   | For j lo hi body par =>
       let V := fv_index lo ++ fv_index nlo in
       negb (memb i V) && index_over V lo && index_over V nlo && forallb (okbind (okb i V)) body
+      && forallb (nm_s i (fun _ => false)) body
   | _ => false
   end.
 
@@ -269,13 +268,14 @@ Proof.
   intros i nlo Hev s s' Hf Hok. destruct s; cbn [shift_f] in Hf; try discriminate Hf.
   destruct (Pos.eqb i0 i) eqn:E; [|discriminate Hf]. apply Pos.eqb_eq in E. subst i0.
   injection Hf as <-. cbn [shift_ok] in Hok.
-  apply andb_true_iff in Hok as [Hok Hbody]. apply andb_true_iff in Hok as [Hok Hnlo].
+  apply andb_true_iff in Hok as [Hok Hnm]. apply andb_true_iff in Hok as [Hok Hbody]. apply andb_true_iff in Hok as [Hok Hnlo].
   apply andb_true_iff in Hok as [Hi Hlo]. apply negb_true_iff in Hi.
   eapply rule_shift_loop with (V := fv_index lo ++ fv_index nlo).
   - apply memb_false, Hi.
   - apply index_over_depends, Hlo.
   - apply index_over_depends, Hnlo.
   - exact Hbody.
+  - exact Hnm.
   - intros st l _. apply Hev.
 Qed.
 
